@@ -563,7 +563,7 @@ non-trivial = a body or >= 1 param or a custom program with >= 2 writes";
     }
 
     fn cases_per_worker(tier: Tier) -> u32 {
-        tier.pick(5000, 40_000)
+        tier.pick(5000, 150_000)
     }
 
     fn strategy(_tier: Tier) -> BoxedStrategy<Case> {
